@@ -769,6 +769,11 @@ type Treasure interface {
 	IsModifiedAtChanged() bool
 	IsModifiedByChanged() bool
 
+	// ResetChangeFlags clears every "changed since the last save" flag. The Swamp calls it from
+	// its save function once the save has been classified, so the next Save of an untouched
+	// Treasure reports StatusSame instead of repeating the previous StatusModified.
+	ResetChangeFlags(guardID guard.ID)
+
 	// -------------------------- BODY FUNCTIONS -------------------------- //
 	// System function are functions that are used by the system and should not be used by the Head of the Hydra
 
@@ -2357,6 +2362,21 @@ func (t *treasure) IsContentTypeChanged() bool {
 	t.mu.RLock()
 	defer t.mu.RUnlock()
 	return t.contentTypeChanged
+}
+
+func (t *treasure) ResetChangeFlags(guardID guard.ID) {
+	_ = t.Guard.CanExecute(guardID)
+	t.mu.Lock()
+	defer t.mu.Unlock()
+	t.expirationTimeChanged = false
+	t.contentChanged = false
+	t.contentTypeChanged = false
+	t.createdAtChanged = false
+	t.createdByChanged = false
+	t.deletedAtChanged = false
+	t.deletedByChanged = false
+	t.modifiedAtChanged = false
+	t.modifiedByChanged = false
 }
 
 func (t *treasure) Uint32SliceGetAll() ([]uint32, error) {
